@@ -259,10 +259,12 @@ abbrev M33 (R : Type) := V3 R × V3 R × V3 R
 
 def identity33 : M33 R := (⟨lit 1, lit 0, lit 0⟩, ⟨lit 0, lit 1, lit 0⟩, ⟨lit 0, lit 0, lit 1⟩)
 
-/-- the rotation of `map_points_to_xy_plane` -/
+/-- the rotation of `map_points_to_xy_plane`: the local `plane_normal` (the orientation of the division normal with
+    third component ≥ 0, `Gen.Division.planeNormalOf`) is chosen first; the identity test and the quaternion read it -/
 def rotationOf (fn : Fn R) (n : V3 R) : M33 R :=
-  if Gen.Division.isIdentityCase n then identity33
-  else Gen.Division.quatToMatrix (Gen.Division.quatNormalize fn (Gen.Division.quatOfNormal n))
+  let plane_normal := Gen.Division.planeNormalOf n
+  if Gen.Division.isIdentityCase plane_normal then identity33
+  else Gen.Division.quatToMatrix (Gen.Division.quatNormalize fn (Gen.Division.quatOfNormal plane_normal))
 
 /-- apply `g` to the nodes with id ≥ thr -/
 def mapTail (thr : Nat) (g : V3 R → V3 R) (nodes : Array (V3 R)) : Array (V3 R) :=
